@@ -171,6 +171,11 @@ func Check(lab *Lab, opText, opName string, variables []byte, ro *RunOptions) *V
 	}
 	if res.Err != nil {
 		v.PlanError = res.Err.Error()
+		if verr := lab.Validate(opText); verr != nil {
+			// the repo's own validator rejects the operation: a generator defect (or a validator
+			// one), not a planning failure
+			v.LabError = "generated operation rejected by the validator: " + trunc(verr.Error(), 300)
+		}
 		return v
 	}
 	if res.Data == nil && !res.HasErrors() {
